@@ -10,6 +10,8 @@ namespace JsightVerif.Model
 /-- conditions that only look at the current byte -/
 def simpleCond (c : UInt8) : Cond → Option Bool
   | .byteEq b => some (c.toNat == b)
+  | .byteLe b => some (decide (c.toNat ≤ b))
+  | .byteGe b => some (decide (b ≤ c.toNat))
   | .eqCaseWs => some (c == caseWhitespace c)
   | .eqCaseNl => some (c == caseNewLine c)
   | .isWs => some (isSpaceB c)
@@ -29,6 +31,8 @@ theorem evalCond_simple {σ} (env : Env) (s : Sc σ) (c : UInt8) (cnd : Cond) (b
     (h : simpleCond c cnd = some b) : evalCond env s c cnd = some b := by
   induction cnd generalizing b with
   | byteEq _ => simpa [simpleCond, evalCond] using h
+  | byteLe _ => simpa [simpleCond, evalCond] using h
+  | byteGe _ => simpa [simpleCond, evalCond] using h
   | eqCaseWs => simpa [simpleCond, evalCond] using h
   | eqCaseNl => simpa [simpleCond, evalCond] using h
   | isWs => simpa [simpleCond, evalCond] using h
